@@ -107,6 +107,7 @@ func solveOne(vc *VC, o *Obl, dir string, timeout time.Duration, needAll bool) *
 	}
 	var satAns *ans
 	best := ""
+	graceStarted := false
 	for i := 0; i < len(use); i++ {
 		a := <-ch
 		res.Outputs[a.solver] = trunc(a.out, 300)
@@ -119,6 +120,17 @@ func solveOne(vc *VC, o *Obl, dir string, timeout time.Duration, needAll bool) *
 			if !needAll {
 				cancel()
 				return res
+			}
+			// thorough tier: the other back ends get a short grace period to confirm, not their full budget
+			if !graceStarted {
+				graceStarted = true
+				go func() {
+					select {
+					case <-time.After(8 * time.Second):
+						cancel()
+					case <-ctx.Done():
+					}
+				}()
 			}
 		case "sat":
 			if satAns == nil {
